@@ -125,3 +125,31 @@ func VerifC30Lock() {
 	vAssert(err == nil && idx == before+1, "Unlock advances the index and wakes the waiter")
 	t.Terminate()
 }
+
+// VerifC30AfterCancel: a wait is cancelled at the very moment a change arrives
+// (the tracker may already have prepared a response for it); a later wait at the
+// then-current index must still see exactly the next change - never an index it
+// was already given, never a stale termination.  Run with sync.Pool reuse
+// modelled, so that recycled request objects are covered.
+func VerifC30AfterCancel() {
+	t := NewTracker()
+	ctx, cancel := context.WithCancel(context.Background())
+	notified := make(chan struct{})
+	go func() {
+		cancel()
+		t.NotifyOfChange()
+		close(notified)
+	}()
+	i1, err1 := t.WaitForChange(ctx, 1)
+	vAssert(err1 == context.Canceled || err1 == nil && i1 == 2, "cancel racing a change: one of the two outcomes")
+	if err1 != nil {
+		vCover("first wait cancelled")
+	}
+	<-notified // the change has happened: the current index is 2
+	go t.NotifyOfChange()
+	i2, err2 := t.WaitForChange(context.Background(), 2)
+	vAssert(err2 == nil, "later wait: no error")
+	vAssert(i2 == 3, "later wait returns the index after the next change, not a stale one")
+	vCover("later wait served")
+	t.Terminate()
+}
